@@ -5,6 +5,7 @@
 package main
 
 import (
+	"context"
 	"encoding/hex"
 	"encoding/json"
 	"fmt"
@@ -13,6 +14,8 @@ import (
 
 	"github.com/ozontech/seq-db/frac"
 	"github.com/ozontech/seq-db/frac/token"
+	"github.com/ozontech/seq-db/parser"
+	"github.com/ozontech/seq-db/pattern"
 
 	"verif/harness/internal/rng"
 )
@@ -134,7 +137,11 @@ func (d *driver) unpackRawCase(class string, data []byte) {
 
 // blockToken: tokens for block-level classes: empty, short, 0xFF-heavy, lengths around 2^8
 func (d *driver) blockToken(big bool) string {
-	switch d.r.Intn(12) {
+	c := d.r.Intn(12)
+	if !d.long && (c == 3 || c == 4) {
+		c = 6
+	}
+	switch c {
 	case 0:
 		return ""
 	case 1:
@@ -604,9 +611,59 @@ func (d *driver) writerCase(class string, fields []fieldSpec, workers int, order
 	for i, k := range idx {
 		dk[i] = bytesCoq(string(payloads[uint32(k)]))
 	}
-	term := fmt.Sprintf("CWriter [%s] (%d)%%Z [%s] [%s] [%s]", strings.Join(fs, "; "), b0, strings.Join(bl, "; "),
-		strings.Join(tb, "; "), strings.Join(dk, "; "))
-	d.w.Add(term, class, len(blocks) > len(all) || len(idx) > 1, in, map[string]any{"entries": implE, "physical_blocks": len(idx)})
+	// the real sealed lookup over this table for one field: SelectEntries, Provider, Search
+	qfs := fields[r.Intn(len(fields))]
+	var qparts []string
+	var implQ []any
+	for k := 0; k < 6; k++ {
+		base := rng.Pick(r, qfs.Tokens)
+		if len(base) > 40 {
+			base = base[:r.Range(0, 40)]
+		}
+		base = strings.ReplaceAll(base, "*", "a")
+		var q query
+		switch r.Intn(4) {
+		case 0:
+			q = query{Pattern: base}
+		case 1:
+			q = query{Pattern: base[:r.Intn(len(base)+1)] + "*"}
+		case 2:
+			q = query{Pattern: "*" + base[r.Intn(len(base)+1):]}
+		default:
+			q = query{Pattern: "*"}
+		}
+		tids, p := func() (tids []uint32, p *panicInfo) {
+			defer func() {
+				if rec := recover(); rec != nil {
+					p = &panicInfo{rec}
+				}
+			}()
+			t := q.token(qfs.Name)
+			sel := table.SelectEntries(parser.GetField(t), parser.GetHint(t))
+			if len(sel) == 0 {
+				return []uint32{}, nil
+			}
+			tp, err := token.VerifC13Provider(sel, payloads)
+			if err != nil {
+				panic(err)
+			}
+			tids, err = pattern.Search(context.Background(), t, tp)
+			if err != nil {
+				panic(err)
+			}
+			return tids, nil
+		}()
+		if p != nil {
+			in["query"] = bstr(q.String())
+			d.w.Violate("panic:sealed-search", fmt.Sprintf("SelectEntries/Provider/Search panics: %v", p.v), in)
+			return
+		}
+		qparts = append(qparts, fmt.Sprintf("(%s, %s)", q.coq(), zlist(tids)))
+		implQ = append(implQ, map[string]any{"field": qfs.Name, "q": bstr(q.String()), "tids": tids})
+	}
+	term := fmt.Sprintf("CWriter [%s] (%d)%%Z [%s] [%s] [%s] %s [%s]", strings.Join(fs, "; "), b0, strings.Join(bl, "; "),
+		strings.Join(tb, "; "), strings.Join(dk, "; "), bytesCoq(qfs.Name), strings.Join(qparts, "; "))
+	d.w.Add(term, class, len(blocks) > len(all) || len(idx) > 1, in, map[string]any{"entries": implE, "physical_blocks": len(idx), "queries": implQ})
 	d.w.Count(fmt.Sprintf("writer:physical-blocks-%d", min(len(idx), 3)))
 	d.w.Count(fmt.Sprintf("writer:blocks-per-field-max-%d", min(maxPerField(seen), 4)))
 }
@@ -622,7 +679,7 @@ func maxPerField(m map[string]int) int {
 // ---------------------------------------------------------------- streams
 
 func (d *driver) blockStreams(thorough bool) {
-	nB, nU, nP, nA, nW, nHeavy := 120, 150, 90, 60, 16, 2
+	nB, nU, nP, nA, nW, nHeavy := 120, 150, 90, 60, 16, 1
 	if thorough {
 		nB, nU, nP, nA, nW, nHeavy = 1200, 2000, 900, 600, 120, 12
 	}
@@ -636,6 +693,7 @@ func (d *driver) blockStreams(thorough bool) {
 		d.blockCase("block-boundary-64k", [][]string{{"x", d.fill(65535)}, {d.fill(65536)}, {d.fill(65537), "y"}}, 1)
 	}
 	for i := 0; i < nB; i++ {
+		d.long = i%6 == 0
 		var groups [][]string
 		for g := d.r.Range(1, 4); g > 0; g-- {
 			groups = append(groups, d.sortedTokens(d.r.Range(1, 6), false))
@@ -648,6 +706,7 @@ func (d *driver) blockStreams(thorough bool) {
 	d.unpackRawCase("unpack-malformed", []byte{5, 0, 0, 0, 'a'})
 	d.unpackRawCase("unpack-malformed", []byte{0xfe, 0xff, 0xff, 0xff, 'a'})
 	for i := 0; i < nU; i++ {
+		d.long = i%8 == 0
 		var groups [][]string
 		for g := d.r.Range(1, 3); g > 0; g-- {
 			groups = append(groups, d.sortedTokens(d.r.Range(1, 4), false))
@@ -678,6 +737,7 @@ func (d *driver) blockStreams(thorough bool) {
 	}
 	// providers
 	for i := 0; i < nP; i++ {
+		d.long = i%10 == 0
 		toks := d.sortedTokens(d.r.Range(2, 24), false)
 		lay := provLayout{Entries: d.randSplit(toks), Big: d.r.Chance(1, 3)}
 		if d.r.Chance(2, 3) {
@@ -707,6 +767,7 @@ func (d *driver) blockStreams(thorough bool) {
 		}
 		d.providerCase("rand-provider", lay, l, r, d.callSeq(sizes, d.r.Range(4, 30)), true)
 	}
+	d.long = false
 	// active token list
 	for i := 0; i < nA; i++ {
 		d.activeCase("rand-active", d.r.Range(1, 4), d.randBatches())
